@@ -409,30 +409,38 @@ func (r *rewriter) goBlock(n *ast.GoStmt) ast.Stmt {
 	return &ast.BlockStmt{List: list}
 }
 
-// rangeBlock: { c := ch; for { k, ok := verifvs.Recv2(site, c); if !ok { break }; body } }
+// rangeBlock rewrites "for k := range ch { body }" into
+//
+//	{ c := ch; k := verifvs.ZeroOf(c); var ok bool; for { k, ok = verifvs.Recv2(site, c); if !ok { break }; body } }
+//
+// The iteration variable is declared ONCE, outside the loop: in this module (go 1.13 semantics,
+// instrumented files are pinned to language version go1.21) a range variable is shared by all
+// iterations, and closures capturing it must keep seeing that sharing.
 func (r *rewriter) rangeBlock(n *ast.RangeStmt) ast.Stmt {
 	ch := r.fresh("c")
 	ok := r.fresh("ok")
 	var key ast.Expr = ast.NewIdent("_")
-	tok := token.DEFINE
+	var pre []ast.Stmt
+	pre = append(pre, define(ch, n.X))
 	if n.Key != nil {
 		key = n.Key
-		if n.Tok == token.ASSIGN {
-			// k = range ch: assign to existing variable, ok must be declared
-			tok = token.ASSIGN
+		if n.Tok == token.DEFINE {
+			if id, isID := n.Key.(*ast.Ident); !isID || id.Name == "_" {
+				key = ast.NewIdent("_")
+			} else {
+				pre = append(pre, define(ast.NewIdent(id.Name), &ast.CallExpr{Fun: r.vs("ZeroOf"), Args: []ast.Expr{ch}}))
+				// silence "declared and not used" if the body ignores it
+				pre = append(pre, &ast.AssignStmt{Lhs: []ast.Expr{ast.NewIdent("_")}, Tok: token.ASSIGN, Rhs: []ast.Expr{ast.NewIdent(id.Name)}})
+			}
 		}
 	}
+	pre = append(pre, &ast.DeclStmt{Decl: &ast.GenDecl{Tok: token.VAR, Specs: []ast.Spec{&ast.ValueSpec{Names: []*ast.Ident{ok}, Type: ast.NewIdent("bool")}}}})
 	recv := &ast.CallExpr{Fun: r.vs("Recv2"), Args: []ast.Expr{r.site(n), ch}}
 	var head []ast.Stmt
-	if tok == token.ASSIGN {
-		head = append(head, &ast.DeclStmt{Decl: &ast.GenDecl{Tok: token.VAR, Specs: []ast.Spec{&ast.ValueSpec{Names: []*ast.Ident{ok}, Type: ast.NewIdent("bool")}}}})
-		head = append(head, &ast.AssignStmt{Lhs: []ast.Expr{key, ok}, Tok: token.ASSIGN, Rhs: []ast.Expr{recv}})
-	} else {
-		head = append(head, &ast.AssignStmt{Lhs: []ast.Expr{key, ok}, Tok: token.DEFINE, Rhs: []ast.Expr{recv}})
-	}
+	head = append(head, &ast.AssignStmt{Lhs: []ast.Expr{key, ok}, Tok: token.ASSIGN, Rhs: []ast.Expr{recv}})
 	head = append(head, &ast.IfStmt{Cond: &ast.UnaryExpr{Op: token.NOT, X: ok}, Body: &ast.BlockStmt{List: []ast.Stmt{&ast.BranchStmt{Tok: token.BREAK}}}})
 	body := &ast.BlockStmt{List: append(head, n.Body.List...)}
-	return &ast.BlockStmt{List: []ast.Stmt{define(ch, n.X), &ast.ForStmt{Body: body}}}
+	return &ast.BlockStmt{List: append(pre, &ast.ForStmt{Body: body})}
 }
 
 // selectBlock builds the case descriptors and a switch over verifvs.Select.
